@@ -259,6 +259,13 @@ static int snapshot_differs(int which)
     return 0;
 }
 
+/* element handles (see the trees world): what the caller hands to the library may be an address past the node members
+ * ("negative" offsets) or 2^31 / 2^32 bytes before the structure */
+static size_t g_hnd;
+#define HND(e) ((void *)((uintptr_t)(e) + g_hnd))
+#define ELM(h) ((struct xelem *)((uintptr_t)(h) - g_hnd))
+#define ELMN(h) ((h) ? ELM(h) : NULL)
+
 /* --------------------------------------------------------- find visit logic */
 
 #define MAXOFFER 256
@@ -271,6 +278,7 @@ static int find_visit(const void *obj, void *priv)
     CB_ENTER();
     int r = 0;
     (void)priv;
+    obj = ELM(obj);
     if (noffered < MAXOFFER) offered[noffered] = obj;
     noffered++;
     if (accept_exact) r = obj == accept_exact;
@@ -324,7 +332,7 @@ static int enum_visit(void *obj, void *priv)
 {
     CB_ENTER();
     int r = 0;
-    struct xelem *e = obj;
+    struct xelem *e = ELM(obj);
     (void)priv;
     if (nseen < MAXE + 8) { seen[nseen] = e; seen_erased[nseen] = 0; }
     if (erase_pm && enum_tab && simheap_is_live(e) && e->magic == EMAGIC) {
@@ -332,7 +340,7 @@ static int enum_visit(void *obj, void *priv)
         if (splitmix64(&x) % 1000 < erase_pm) {
             /* documented: the visit function may remove the current object; then it is ours: free it */
             g_inlib = 1;
-            cstl_hash_erase(enum_tab, e);
+            cstl_hash_erase(enum_tab, HND(e));
             g_inlib = 0;
             if (nseen < MAXE + 8) seen_erased[nseen] = 1;
             memset(e, 0xDD, sizeof *e);
@@ -350,7 +358,7 @@ static int enum_visit_const(const void *obj, void *priv)
     CB_ENTER();
     int r = 0;
     (void)priv;
-    if (nseen < MAXE + 8) { seen[nseen] = obj; seen_erased[nseen] = 0; }
+    if (nseen < MAXE + 8) { seen[nseen] = ELM(obj); seen_erased[nseen] = 0; }
     nseen++;
     if (stop_at > 0 && nseen == stop_at) r = stop_val;
     CB_LEAVE();
@@ -364,7 +372,7 @@ static int npre, nclr, clear_frees;
 static void clear_cb(void *obj, void *priv)
 {
     CB_ENTER();
-    struct xelem *e = obj;
+    struct xelem *e = ELM(obj);
     int i, idx = -1;
     (void)priv;
     for (i = 0; i < npre; i++) if (pre[i] == e) { idx = i; break; }
@@ -441,7 +449,7 @@ static void audit_table(int t, int full)
         for (i = 0; i < m->nlive; i++) {
             struct xelem *e = m->live[i];
             accept_exact = e; accept_at = 0; noffered = 0;
-            TRY(r = cstl_hash_find(&tb[t], XN(e)->key, find_visit, NULL));
+            TRY(r = cstl_hash_find(&tb[t], XN(e)->key, find_visit, NULL)); r = ELMN(r);
             if (g_aborted) { accept_exact = NULL; VIOLP(P, "abort", "a lookup aborted"); }
             if (r != e) { accept_exact = NULL; snapshot_restore(0); VIOLP(P, "lost_element", "live element %d (key %zu) of table %d is not found by its key", e->id, XN(e)->key, t); }
             accept_exact = NULL;
@@ -629,11 +637,17 @@ static void x_once(const plan_t *p)
     prng_seed(&aprng, p->cfg[CF_TABSEED] ^ 0xa0d17);
     next_id = 0; nlimbo = 0; maxreach = 0; ncalls = 0; bad_at = 0; bad_returned = 0; m0_seen = 0;
     memset(tb, (int)(unsigned char)p->cfg[CF_JUNK], sizeof tb);      /* init on junk memory, as on a stack */
+    switch (p->cfg[CF_SPREAD] >> 8 & 7) {
+    default: g_hnd = 0; break;
+    case 1: case 2: g_hnd = sizeof(struct xelem); PROBE("handles_past_the_node_members"); break;
+    case 3: g_hnd = (size_t)0 - (((size_t)1 << 31) + 24); PROBE("handles_2^31_before_the_node_members"); break;
+    case 4: g_hnd = (size_t)0 - (((size_t)1 << 32) + 24); PROBE("handles_2^32_before_the_node_members"); break;
+    }
     for (t = 0; t < NTAB; t++) {
         memset(&mt[t], 0, sizeof mt[t]);
         mt[t].since_clear = -1;
         mt[t].kind = (int)(p->cfg[CF_SPREAD] >> (4 + t) & 1);
-        cstl_hash_init(&tb[t], mt[t].kind ? offsetof(struct xelem, hn2) : offsetof(struct xelem, hn));
+        cstl_hash_init(&tb[t], (mt[t].kind ? offsetof(struct xelem, hn2) : offsetof(struct xelem, hn)) - g_hnd);
     }
 
     for (k = 0; k < p->nops; k++) {
@@ -762,7 +776,7 @@ static void x_once(const plan_t *p)
             if (m->nlive >= maxe) goto do_erase;
             e = new_elem();
             e->nk = m->kind;
-            TRY(cstl_hash_insert(&tb[t], key, e));
+            TRY(cstl_hash_insert(&tb[t], key, HND(e)));
             c = ncalls; wk = g_work - g_work_at_try;
             if (c17_after(t, "insert")) return;
             if (g_aborted) VIOL(g_aborted == 2 ? "assert" : "abort", "insert aborted");
@@ -781,7 +795,7 @@ static void x_once(const plan_t *p)
             nk = count_key(t, key);
             noffered = 0; accept_exact = NULL;
             accept_at = vmode == 1 ? 1 + (int)((o->a[3] >> 20) % 4) : 0;
-            TRY(ret = cstl_hash_find(&tb[t], key, vmode == 0 ? NULL : find_visit, NULL));
+            TRY(ret = cstl_hash_find(&tb[t], key, vmode == 0 ? NULL : find_visit, NULL)); ret = ELMN(ret);
             c = ncalls; wk = g_work - g_work_at_try;
             if (c17_after(t, "find")) return;
             if (g_aborted) VIOL(g_aborted == 2 ? "assert" : "abort", "find aborted");
@@ -816,7 +830,7 @@ static void x_once(const plan_t *p)
             if (m->nlive == 0) { EVT("skip", 0, 0, 0); break; }
             idx = (int)(o->a[3] % (uint64_t)m->nlive);
             e = m->live[idx];
-            TRY(cstl_hash_erase(&tb[t], e));
+            TRY(cstl_hash_erase(&tb[t], HND(e)));
             c = ncalls; wk = g_work - g_work_at_try;
             if (c17_after(t, "erase")) return;
             if (g_aborted) VIOL(g_aborted == 2 ? "assert" : "abort", "erase aborted");
@@ -839,7 +853,7 @@ static void x_once(const plan_t *p)
                 limbo_add(e);
                 PROBE("erase_never_inserted");
             }
-            TRY(cstl_hash_erase(&tb[t], e));
+            TRY(cstl_hash_erase(&tb[t], HND(e)));
             c = ncalls; wk = g_work - g_work_at_try;
             if (c17_after(t, "erase")) return;
             if (g_aborted) VIOL(g_aborted == 2 ? "assert" : "abort", "erase of a non-member aborted");
@@ -1104,7 +1118,7 @@ static void x_gen(prng_t *r, int mode, plan_t *p)
     p->cfg[CF_KEYS] = small ? 1 + prng_below(r, 4) : 2 + prng_below(r, 39);
     p->cfg[CF_JUNK] = 1 + prng_below(r, 254);
     p->cfg[CF_MAXE] = longrun ? 200 + prng_below(r, 1800) : small ? 2 + prng_below(r, 4) : 4 + prng_below(r, 44);
-    p->cfg[CF_SPREAD] = ((mode == 19) ? 1 : prng_chance(r, 1, 3)) | (prng_chance(r, 1, 3) ? prng_below(r, 4) << 4 : 0);
+    p->cfg[CF_SPREAD] = ((mode == 19) ? 1 : prng_chance(r, 1, 3)) | (prng_chance(r, 1, 3) ? prng_below(r, 4) << 4 : 0) | (prng_chance(r, 1, 3) ? prng_below(r, 8) << 8 : 0);
     p->cfg[CF_AUDIT_PM] = longrun ? 30 : 1000;
     p->cfg[CF_RPOLICY] = prng_below(r, 3);
     p->cfg[CF_TABSEED] = prng_next(r);
